@@ -345,6 +345,54 @@ Fixpoint first_order (v : value) : bool :=
   | _ => true
   end.
 
+(* the shape check on first-order data (no function inside the value, no unmodelled type
+   reached): there it coincides with the full value typing [vtyp] (TypesProofs.check_strict_vtyp) *)
+Fixpoint check_strict (D : decls) (t : ty) (v : value) {struct v} : bool :=
+  match v with
+  | VInt _ => match t with TInt | TChar => true | _ => false end
+  | VByte _ => match t with TByte => true | _ => false end
+  | VFloat _ => match t with TFloat => true | _ => false end
+  | VStr _ => match t with TStr => true | _ => false end
+  | VData tag vs =>
+      match t with
+      | TData d targs =>
+          match ctor_args D d targs tag with
+          | Some cts =>
+              (fix go (vs : list value) (ts : list ty) {struct vs} : bool :=
+                 match vs, ts with
+                 | [], [] => true
+                 | w :: vs', u :: ts' => check_strict D u w && go vs' ts'
+                 | _, _ => false
+                 end) vs cts
+          | None => false
+          end
+      | _ => false
+      end
+  | VRcd fs =>
+      match t with
+      | TRcd fts =>
+          (fix go (fs : list (name * value)) (fts : list (name * ty)) {struct fs} : bool :=
+             match fs, fts with
+             | [], [] => true
+             | f :: fs', ft :: fts' =>
+                 N.eqb (fst f) (fst ft) && check_strict D (snd ft) (snd f) && go fs' fts'
+             | _, _ => false
+             end) fs fts
+      | _ => false
+      end
+  | VArr vs =>
+      match t with
+      | TArr u =>
+          (fix go (vs : list value) {struct vs} : bool :=
+             match vs with
+             | [] => true
+             | w :: vs' => check_strict D u w && go vs'
+             end) vs
+      | _ => false
+      end
+  | VClo _ _ _ _ | VPap _ _ => false
+  end.
+
 (* ---------------------------------------------------------------- what the harness sees *)
 (* A real VM value through vm::api::ValueRef: records and variants are both [Data] (a record has
    tag 0 and no field names), closures / partial applications / extern functions are opaque. *)
